@@ -265,7 +265,7 @@ func (r *runner) observe(p *program, s, dst storage.Engine, hk map[uint64]string
 	}
 	r.w.Emit(trace.Ev{"t": "obs", "get": get, "dst": dget, "range": rng, "rangeh": rngh,
 		"stats": trace.Ev{"allocated": st.Allocated, "inuse": st.Inuse, "garbage": st.Garbage, "length": st.Length, "numtables": st.NumTables},
-		"scan": scans})
+		"scan":  scans})
 }
 
 // run executes one program on a fresh store and writes its trace.  It returns false when the
@@ -463,14 +463,19 @@ func randomProgram(rng *rand.Rand, n int) *program {
 
 // churnProgram keeps overwriting and deleting a fixed key set, with compaction run to completion
 // every so often and ten times at the end (C20).
-func churnProgram(rng *rand.Rand, n int, big bool) *program {
-	T := []int{1024, 65536}[rng.Intn(2)]
+func churnProgram(rng *rand.Rand, n int, big bool, variant int) *program {
+	// the variants cycle through small/large tables x uniform/skewed key choice, so that a handful of programs covers all four
+	T := []int{1024, 65536, 1024, 1024, 65536, 1024, 65536, 1024}[variant%8]
 	nk := 4 + rng.Intn(61)
 	if big {
 		T, nk = 65536, 2500
 	}
 	keys := keysN(nk)
 	p := &program{Src: "churn", T: T, IdleMs: 0, Keys: keys, ObsEvery: 97, Pattern: "^[abc]"}
+	if !big && []bool{true, false, false, false, true, true, false, false}[variant%8] {
+		// recycled tables are kept for an hour (the default is 15 minutes): they have to be re-used, not piled up
+		p.IdleMs = 3600000
+	}
 	if big {
 		p.ObsEvery = 2500
 	}
@@ -483,8 +488,21 @@ func churnProgram(rng *rand.Rand, n int, big bool) *program {
 	if big {
 		round = 4000
 	}
+	// every second program is skewed: all keys are written once, then only a hot third of them is churned, so that the
+	// oldest tables stay full of live, never rewritten entries while tables behind them are emptied, recycled and re-used
+	hot := nk
+	if !big && []bool{true, false, false, true, true, false, false, true}[variant%8] {
+		hot = 1 + nk/3
+		for _, k := range keys {
+			o := "put"
+			if raw {
+				o = "putraw"
+			}
+			p.Ops = append(p.Ops, op{Op: o, K: k, Sz: minEntry + len(k) + rng.Intn(maxSz/2-minEntry-len(k)+1)})
+		}
+	}
 	for i := 0; i < n; i++ {
-		k := keys[rng.Intn(nk)]
+		k := keys[nk-1-rng.Intn(hot)]
 		x := rng.Intn(100)
 		switch {
 		case x < 65:
@@ -579,10 +597,10 @@ func TestKV(t *testing.T) {
 		progs = append(progs, randomProgram(rng, envInt("VERIF_KV_RANDOM_LEN", 120)))
 	}
 	for i := 0; i < envInt("VERIF_KV_CHURN", 0); i++ {
-		progs = append(progs, churnProgram(rng, envInt("VERIF_KV_CHURN_LEN", 3000), false))
+		progs = append(progs, churnProgram(rng, envInt("VERIF_KV_CHURN_LEN", 3000), false, i))
 	}
 	for i := 0; i < envInt("VERIF_KV_BIG", 0); i++ {
-		progs = append(progs, churnProgram(rng, 20000, true))
+		progs = append(progs, churnProgram(rng, 20000, true, i))
 	}
 	for i, p := range progs {
 		r.run(p, i+1)
